@@ -693,6 +693,12 @@ class Evaluator:
                         if self._is_memory(path):
                             st.events.append({'kind': 'write', 'block': blk, 'path': path, 'value': t,
                                               'span': s['span']['at'], 'loops': st.loops_seen})
+                        elif len(path) >= 2 and path[1] == 'deref':
+                            # store through a reference obtained from an opaque call (e.g. `*v.get_unchecked_mut(i) = x`)
+                            base = self._lookup_exact(st, (path[0],))
+                            if base is not None:
+                                st.events.append({'kind': 'write_ref', 'block': blk, 'ref': base, 'proj': path[2:], 'value': t,
+                                                  'span': s['span']['at'], 'loops': st.loops_seen})
                     elif s['k'] == 'setdiscr':
                         p = s['place']
                         path = self.canon(st, p['l'], p['p'])
